@@ -111,7 +111,9 @@ int main(int argc, char **argv)
 		       rc == SQFS_ERROR_UNSUPPORTED ? "UNSUPPORTED" : "OTHER");
 	}
 	int frc = sqfs_block_processor_finish(proc);
-	printf("],\"finish\":%d,\"files\":[", frc);
+	const sqfs_block_processor_stats_t *st = sqfs_block_processor_get_stats(proc);
+	printf("],\"finish\":%d,\"stats\":{\"input\":%llu,\"dblk\":%llu,\"frags\":%llu},\"files\":[", frc, (unsigned long long)(st->input_bytes_read / U),
+	       (unsigned long long)st->data_block_count, (unsigned long long)st->total_frag_count);
 	memfile_t *m = (memfile_t *)out;
 	int first = 1;
 	for (int i = 0; i < nf; ++i) {
